@@ -107,7 +107,10 @@ def reflTable (presized : Bool) : List (String × Ty) :=
    ("strs", .list none presized .bytes),
    ("recs", .list none presized (.pair .u32 .bytes)),
    ("nested", .list none presized (.list none presized .u16)),
-   ("rec", .pair .u16 (.pair (.list none presized .u32) .bytes))]
+   ("rec", .pair .u16 (.pair (.list none presized .u32) .bytes)),
+   -- element types with an empty encoding (field-less structs): the slice is a bare count
+   ("units", .list none presized .unit),
+   ("batch", .pair .u32 (.pair (.list none presized .unit) .u16))]
 
 def reflTy (name : String) : Option Ty := (reflTable false).lookup name
 
